@@ -16,7 +16,9 @@ const NAMES: [&str; 39] = [
     "ISO-8859-6", "ISO-8859-7", "ISO-8859-8", "ISO-8859-8-I", "KOI8-R", "KOI8-U", "macintosh", "windows-1250", "windows-1251", "windows-1253",
     "windows-1254", "windows-1255", "windows-1256", "windows-1257", "windows-1258", "windows-874", "x-mac-cyrillic", "x-user-defined",
 ];
-const ALIASES: [&str; 28] = [
+const ALIASES: [&str; 34] = [
+    // labels of the "replacement" encoding (known labels: the whole body becomes one U+FFFD, never a fallback decode)
+    "iso-2022-kr", "hz-gb-2312", "iso-2022-cn", "iso-2022-cn-ext", "csiso2022kr", "replacement",
     "latin1", "utf8", "sjis", "cp1251", "l1", "ascii", "unicode-1-1-utf-8", "x-sjis", "csbig5", "ks_c_5601-1987", "iso-8859-1", "us-ascii",
     "cp866", "koi8", "x-gbk", "ms_kanji", "windows-31j", "csisolatin2", "greek", "hebrew", "arabic", "cyrillic", "tis-620", "mac", "utf-16",
     "unicodefeff", "x-cp1252", "iso88591",
